@@ -564,10 +564,11 @@ def cellOK (w : Want) (old new : TCell) : Bool :=
 
   `MockTerm` mirrors `mtd_goto_abs`, `mtd_print`, `mtd_erasech` and `mtd_chpen` statement by statement: goto is clamped to
   the screen, `erasech` moves the cursor unless `moveend == TICKIT_NO`, a cell holds the bytes of one grapheme (`" "`
-  after an erase, NULL for the second column of a double-width character) and a clone of the driver's pen.  `mtd_print`
-  writes `linecells[cols]` when a double-width character starts in the last column: that heap overflow is the `crashed`
-  flag (known finding `mockterm_wide_at_edge`).  No theorem is about this model; the specification `want`/`cellOK` is
-  evaluated on what the real mock terminal displays. -/
+  after an erase, NULL for the second column of a double-width character) and a clone of the driver's pen.  The loop of
+  `mtd_print` that empties the further columns of a double-width character is bounded by the line width (a wide
+  character printed in the last column shows in that column only; before the repair `mockterm_wide_at_edge` it wrote
+  `linecells[cols]`), while the cursor column still advances by the character's width.  No theorem is about this model;
+  the specification `want`/`cellOK` is evaluated on what the real mock terminal displays. -/
 
 /-- `MockTermCell`: `str` (`none` = NULL) and pen. -/
 structure MCell where
@@ -583,8 +584,6 @@ structure MockTerm where
   col : Int := -1
   /-- `tt->pen` (src/term.c); the driver's `mtd->pen` is a copy of the `final` pen, i.e. the same attributes -/
   pen : Pen := {}
-  /-- `mtd_print` wrote past the end of a line -/
-  crashed : Bool := false
   /-- `mtd_print` does not terminate (a byte string the width counter rejects) -/
   hung : Bool := false
 
@@ -633,9 +632,9 @@ def printLoop (bs : List UInt8) : Nat → MockTerm → Utf8.StrPos → Int → M
             cells := fun l c =>
               if l = line ∧ c = sc then { str := some slice, pen := t.pen }
               else if l = line ∧ sc < c ∧ c < pos'.columns ∧ c < t.cols then { str := none, pen := t.pen }
-              else t.cells l c
-            -- "Empty out the other cells for doublewidth": `linecells[start.columns]` up to `pos.columns − 1`
-            crashed := t.crashed || decide (sc + 1 < pos'.columns ∧ pos'.columns > t.cols) || decide (sc < 0) }
+              -- "Empty out the other cells for doublewidth":
+              -- `for(start.columns++; start.columns < pos.columns && start.columns < mtd->cols; start.columns++)`
+              else t.cells l c }
         printLoop bs fuel t' pos' lim
 
 /-- `mtd_print(str, len)`. -/
